@@ -97,26 +97,13 @@ impl Parser for IntLiteral {
 
 impl Parser for Identifier {
     fn parse<'a>(this: Option<&Self>, input: TokenStream<'a>) -> IResult<'a, Self> {
-        affected(this, |input: TokenStream<'a>| {
-            // The comments in front of an identifier are not part of it.
-            // Otherwise the range of a name would start at the comment.
-            // If there is no identifier, the comments are not consumed either.
-            // They belong to whatever comes next, e.g. the next global declaration.
-            let original_input = input.clone();
-            map(
-                preceded(many0(comment), info(literals::ident)),
-                |(ident, info)| Self {
-                    value: ident.to_string(),
-                    info,
-                },
-            )(input)
-            .map_err(|_| {
-                nom::Err::Error(ParserError {
-                    input: original_input,
-                    kind: crate::error::ParserErrorKind::Token,
-                })
-            })
-        })(input)
+        affected(
+            this,
+            map(info(literals::ident), |(ident, info)| Self {
+                value: ident.to_string(),
+                info,
+            }),
+        )(input)
     }
 }
 
